@@ -42,16 +42,16 @@ Definition diagram_rules (only : bool) (d : pdeps) : list (@cfg comp) :=
                         end) (pd_mods d).
 
 (* MultipleRuleApplier: evaluate every rule, aggregate the failures; another exception ends the evaluation *)
-Fixpoint aggregate (os : list (@outcome comp)) (acc : list (@line comp)) : @outcome comp :=
+Fixpoint aggregate (os : list (@outcome comp)) (failed : bool) (acc : list (@line comp)) : @outcome comp :=
   match os with
-  | [] => match acc with [] => Pass | _ => Fail acc end
-  | Pass :: r => aggregate r acc
-  | Fail ls :: r => aggregate r (acc ++ ls)
+  | [] => if failed then Fail acc else Pass
+  | Pass :: r => aggregate r failed acc
+  | Fail ls :: r => aggregate r true (acc ++ ls)
   | Err e :: _ => Err e
   end.
 
 Definition diagram_apply (g : graph) (only : bool) (base : option name) (d : pdeps) : @outcome comp :=
-  aggregate (map (verdict ceqb rmatch g) (diagram_rules only (prefix_deps base d))) [].
+  aggregate (map (verdict ceqb rmatch g) (diagram_rules only (prefix_deps base d))) false [].
 
 (* DiagramRule: a file has to be given; the parser may reject it *)
 Definition diagram_rule (g : graph) (only : bool) (has_file : bool) (base : option name) (parsed : option pdeps) : @outcome comp :=
